@@ -924,12 +924,19 @@ impl Scenario for Conc {
         // per-actor programs are drawn up front (workload section of the tape)
         let rprog: Vec<Vec<u32>> = (0..nread).map(|_| (0..1 + cx().a(4)).map(|_| cx().a(6)).collect()).collect();
         let uprog: Vec<Vec<(u32, u32)>> = (0..nupd).map(|_| (0..1 + cx().a(3)).map(|_| (cx().a(7), cx().a(4))).collect()).collect();
+        // now and then no actor gets a clone of its own: all of them use the one handle by reference
+        let shared_handle = cx().a(3) == 0;
+        if shared_handle {
+            cx().count("probe.all_actors_share_one_handle");
+        }
         {
             let mut bodies: Vec<Box<dyn FnOnce() + '_>> = Vec::new();
+            let atomic_ref = &atomic;
             for (ai, prog) in rprog.iter().enumerate() {
-                let handle = atomic.clone();
+                let owned = if shared_handle { None } else { Some(atomic.clone()) };
                 let (obs, panics) = (&obs, &panics);
                 bodies.push(Box::new(move || {
+                    let handle = owned.as_ref().unwrap_or(atomic_ref);
                     let r = catch(|| {
                         let mut held: Vec<(GuestMemoryLoadGuard<Map>, Vec<(u64, u64, u8)>, u64)> = Vec::new();
                         let mut inner: Vec<(Arc<Map>, Vec<(u64, u64, u8)>, u64)> = Vec::new();
@@ -990,12 +997,13 @@ impl Scenario for Conc {
                 }));
             }
             for (ui, prog) in uprog.iter().enumerate() {
-                let handle = atomic.clone();
+                let owned = if shared_handle { None } else { Some(atomic.clone()) };
                 let actor = nread + ui;
                 let (publ, gen_ctr, tag_ctr, panics) = (&publ, &gen_ctr, &tag_ctr, &panics);
                 let mk_ctl = &mk_ctl;
                 let mk_data = &mk_data;
                 bodies.push(Box::new(move || {
+                    let handle = owned.as_ref().unwrap_or(atomic_ref);
                     let r = catch(|| {
                         for &(op, slot) in prog {
                             let t0 = cx().events.len();
